@@ -109,3 +109,62 @@ Definition clone_subset {V} (keys : list bits) (m : list (bits * V)) : list (bit
    SOURCE's slices, whose lengths do not change *)
 Definition clone_in_place_source {V} (keys : list bits) (m : list (bits * V)) : list (bits * V) :=
   let f := clone_subset keys m in f ++ skipn (length f) m.
+
+(** ** ProveKeyInHashmap, as a LOOKUP (the proof bytes are C18's): walk down the
+    labels, at every fork take the child the key's next bit names (the key bits
+    under a label are skipped, not compared), decode the value of the leaf that
+    is reached, and only then compare the whole reconstructed key with the
+    requested one.  [kr] is the unread rest of the key, [prefix] the key
+    reconstructed so far (a BitString of capacity n). *)
+Section Find.
+Variable V : Type.
+Variable vdec : bits -> list cell -> option V.
+
+Fixpoint find_in (n remaining : nat) (key : bits) (c : cell) (kr prefix : bits) : res V :=
+  match c with
+  | Cell cb refs =>
+      do lr <- load_label remaining (n - length prefix) cb;
+      let '(lbl, rest) := lr in
+      let prefix' := prefix ++ lbl in
+      if (remaining <=? length lbl)%nat then
+        do v <- vdec_res vdec rest refs;
+        if short n prefix' then Err ENotEnoughBits
+        else if bits_eqb (firstn n prefix') key then Ok v else Err EOther   (* "key is not found" *)
+      else if short (length lbl) kr then Err ENotEnoughBits
+      else
+        match skipn (length lbl) kr with
+        | [] => Err ENotEnoughBits
+        | b :: kr' =>
+            if (n <=? length prefix')%nat then Err EOverflow
+            else
+              let remaining' := (remaining - length lbl - 1)%nat in
+              match refs with
+              | [] => Err ENotEnoughRefs
+              | l :: refs' =>
+                  if b then
+                    match refs' with
+                    | [] => Err ENotEnoughRefs
+                    | r :: _ => find_in n remaining' key r kr' (prefix' ++ [true])
+                    end
+                  else find_in n remaining' key l kr' (prefix' ++ [false])
+              end
+        end
+  end.
+
+(* keySize = key.BitsAvailableForRead() *)
+Definition find_key (c : cell) (key : bits) : res V :=
+  find_in (length key) (length key) key c key [].
+End Find.
+Arguments find_in {V}. Arguments find_key {V}.
+
+(** ** ShardState.AccountBalances: the key -> balance view over the decoded accounts
+    dictionaries; an account without a balance (account_none) is left out; for a
+    split state the left and the right dictionary are put into ONE Go map, each
+    value under the key at the same index of ITS OWN dictionary (a later entry
+    with the same key replaces an earlier one).  Printed in key order. *)
+Definition balances_of {B} (m : list (bits * option B)) : list (bits * B) :=
+  flat_map (fun kv => match snd kv with Some b => [(fst kv, b)] | None => [] end) m.
+
+Definition account_balances {B} (split : bool) (left right : list (bits * option B)) : list (bits * B) :=
+  fold_left (fun m kv => update (fst kv) (snd kv) m)
+            (balances_of left ++ (if split then balances_of right else [])) [].
